@@ -21,9 +21,11 @@ pub mod w_flag;
 pub mod w_forbid;
 pub mod w_halflock;
 pub mod w_instance;
+pub mod w_origin;
 pub mod w_pipe;
 pub mod w_iter;
 pub mod w_reg;
+pub mod w_strace;
 
 pub use signal_hook_registry::verif::site;
 
